@@ -37,6 +37,8 @@ class Exec(ExprMixin, CallMixin, StmtMixin):
     delitem_handlers = {}
     getattr_dyn_handlers = {}
     hash_handlers = {}
+    hasattr_handlers = {}
+    tupleof_handlers = {}
     fstring_handler = None
     conv_handlers = {}
     empty_handlers = {}
